@@ -49,6 +49,10 @@ REQUIRED_FAULTS = ["dangling-id:nowhere", "dangling-id:other-container", "dangli
                    "docref-lacks-id:container-lacks", "docref-lacks-id:ghost-fragment",
                    "ambiguous-sn", "leak:id-imported-by-sibling"]
 
+# the ID is defined in no fragment the reference may search, but a layer *other than the
+# referrer* inside such a fragment imports (IMPORT-REF) a layer that defines it
+FOREIGN_IMPORT = "visible-only-through-foreign-import"
+
 # ---------------------------------------------------------------------------
 # observation at the public API
 
@@ -285,9 +289,9 @@ def judge_db(model: Dict[str, Any], col: common.Collector, tier: str = "quick",
         for st in sts:
             e = exp[st.key]
             o = obs.get(st.key, ("MISSING",))
-            col.ev()
             if unresolvable and not e.must_raise:
                 continue  # a database that had to be rejected: only the fault itself is judged
+            col.ev()
             if e.must_raise:
                 sigc = {"dangling-id": "dangling-accepted", "dangling-sn": "dangling-accepted",
                         "docref-lacks-id": "dangling-accepted", "leak": "dangling-accepted",
@@ -299,7 +303,8 @@ def judge_db(model: Dict[str, Any], col: common.Collector, tier: str = "quick",
                     continue
                 fv = fault["variant"] if fault else "?"
                 if fault and (fault["class"] == "leak" or fv.endswith("+imported-elsewhere")):
-                    lab = "ODXLINK"  # one resolver for all ID-REF kinds; kind is in the detail
+                    # one resolver for all ID-REF kinds; kind and exact variant are in the detail
+                    lab, fv = "ODXLINK", FOREIGN_IMPORT
                 elif fv.startswith("same-layer-duplicate"):
                     lab, fv = "SNREF-in-" + str(st.sncat), ":".join(fv.split(":")[:2])
                 else:
@@ -346,10 +351,10 @@ def judge_db(model: Dict[str, Any], col: common.Collector, tier: str = "quick",
     for (order, rev), oc in outcomes[1:]:
         if isinstance(oc, tuple) != isinstance(ident, tuple):
             axis = "layer-order" if (rev and order == outcomes[0][0][0]) else "doc-order"
-            fk = fkind
+            fk, fc = fkind, fclass
             if fault and (fault["class"] == "leak" or fclass.endswith("+imported-elsewhere")):
-                fk = "ODXLINK"
-            col.violation(("order-dependent", fk, fclass, axis, "raise-vs-load"),
+                fk, fc = "ODXLINK", FOREIGN_IMPORT
+            col.violation(("order-dependent", fk, fc, axis, "raise-vs-load"),
                           detail(order, rev, first=("raised" if isinstance(ident, tuple) else "loaded"),
                                  this=("raised" if isinstance(oc, tuple) else "loaded"),
                                  reference_order=list(outcomes[0][0][0])))
@@ -361,7 +366,8 @@ def judge_db(model: Dict[str, Any], col: common.Collector, tier: str = "quick",
                 continue
             kind = next((st.label for st in sts if st.key in diff), "?")
             axis = "layer-order" if (rev and order == outcomes[0][0][0]) else "doc-order"
-            col.violation(("order-dependent", kind, fclass, axis, "binding"),
+            fc = fclass if (fault and diff and list(diff[0]) == fault["key"]) else "none"
+            col.violation(("order-dependent", kind, fc, axis, "binding"),
                           detail(order, rev, site=list(diff[0]) if diff else None,
                                  first=ident.get(diff[0]) if diff else None,
                                  this=oc.get(diff[0]) if diff else None))
@@ -422,7 +428,7 @@ def make_db(r: Any, i: int) -> Optional[Dict[str, Any]]:
     """every third database is fault free"""
     mode = i % 3
     if mode == 0:
-        unclear = (i % 30 == 0)
+        unclear = (i % 15 == 0)
         model, _ = G.generate(r, unclear=unclear)
         return model
     fclass = G.FAULTS[(i // 3) % len(G.FAULTS)] if mode == 1 else r.choice(G.FAULTS)
@@ -453,7 +459,7 @@ def part(task: Tuple[int, int, str], col: common.Collector) -> None:
 
 
 def run(tier: str, col: common.Collector) -> None:
-    per = 14 if tier == "quick" else 420
+    per = 22 if tier == "quick" else 80
     nw = common.NCPU if tier == "quick" else common.NCPU * 4
     common.pmap(part, [(w, per, tier) for w in range(nw)], col)
     missing = []
